@@ -668,8 +668,8 @@ PROPS["C12"] = {
              "GetSpecErrors, GetErrors, GetSpecDirectories, GetSpecDirErrors, InjectDevices(d2,d3), InjectDevices(d1,d4), Refresh, "
              "Configure(dirs), Configure(auto on), Configure(auto off), WriteSpec, RemoveSpec, Device.ApplyEdits, Spec.ApplyEdits, package-level "
              "Refresh / InjectDevices / GetErrors}; GOMAXPROCS in {2,4,16}; Gosched every 0/1/3/10 operations; an auto-refresh cache or a "
-             "manual cache with a refresher goroutine; a switcher goroutine that atomically renames one Spec file between state A (d1,d2,d3, "
-             "all markers A) and state B (d2,d3,d4, markers B) 20..120 times - by write + rename, or (drawn) through Cache.WriteSpec of another cache object "
+             "manual cache with a refresher goroutine; 1..3 switcher goroutines (drawn; several of them publish under the one name at the same time) that each atomically replace one Spec file between state A (d1,d2,d3, "
+             "all markers A) and state B (d2,d3,d4, markers B, a few hundred bytes longer) 20..120 times - by write + rename, or (drawn) through Cache.WriteSpec of another cache object "
              "over the same directory. Oracle: (1) no race-detector report (the process exits 66 with "
              "the report; the program is left in a replay file); (2) watchdog: some operation returns at least every 30 s, else a goroutine "
              "dump; (3) snapshot consistency: every ListDevices result restricted to the kind is exactly A's or B's list, every "
@@ -691,7 +691,7 @@ PROPS["C12"] = {
         "note": "trusted: the Go race detector; schedules not controlled",
         "technique": "property-based concurrency stress: generated programs under the race detector, snapshot-consistency invariants over every result, deadlock watchdog",
     },
-    "health": {"quick": {"how:NewCache": 30, "target:already-scanned": 20, "auto-refresh": 50, "manual-with-refresher": 50, "op:Configure" + "Dirs": 20, "op:WriteSpec": 20, "op:InjectBoth": 20}},
+    "health": {"quick": {"how:NewCache": 30, "target:already-scanned": 20, "auto-refresh": 50, "manual-with-refresher": 50, "concurrent-WriteSpec-of-one-name": 40, "op:Configure" + "Dirs": 20, "op:WriteSpec": 20, "op:InjectBoth": 20}},
     "units": [
         {"name": "regress", "mode": "plain", "run": "TestC12Regress", "race": True},
         {"name": "rapid", "mode": "rapid", "run": "TestC12Rapid", "race": True, "checks": {"quick": 480, "thorough": 9600}, "timeout": {"quick": 400, "thorough": 3600}},
